@@ -86,3 +86,26 @@ def generate(repo, g):
     g.define('sameForYieldsJoin', 'Bool', lean_bool(ok),
              'jedi/inference/value/function.py:get_yield_lazy_values (yields of one for statement are collected '
              'into one group: yields_order[-1][1].append(yield_))')
+
+    # ---- get_yield_lazy_values: how the yields are grouped, i.e. the ORDER of the element stream
+    # (Model/YieldOrder.lean).  Two shapes are modelled: groups of yields that FOLLOW each other in one
+    # for statement, every top-level yield a group of its own (list + last_for_stmt tracker), or an
+    # insertion-ordered dict keyed by the for statement (None for top-level yields).
+    texts = [u(n) for n in ast.walk(fn) if isinstance(n, (ast.Assign, ast.Expr))]
+    emit_loops = [n for n in ast.walk(fn) if isinstance(n, ast.For) and u(n.target) == '(for_stmt, yields)']
+    if len(emit_loops) != 1:
+        raise TieBroken(W + ': `for for_stmt, yields in <groups>:` not found')
+    over = u(emit_loops[0].iter)
+    adjacent = ok and 'yields_order = []' in texts and 'last_for_stmt = None' in texts and \
+        'last_for_stmt = for_stmt' in texts and 'yields_order.append((None, [yield_]))' in texts and \
+        over == 'yields_order'
+    keyed = 'yields_order = {}' in texts and 'yields_order.setdefault(for_stmt, []).append(yield_)' in texts and \
+        'yields_order.setdefault(None, []).append(yield_)' in texts and over == 'yields_order.items()' and \
+        not joins
+    if adjacent == keyed:
+        raise TieBroken(W + ': how the yields are grouped (yields_order) is not recognised',
+                        '\n'.join(t for t in texts if 'yields_order' in t or 'last_for_stmt' in t)[:400])
+    g.define('yieldGroupsKeyed', 'Bool', lean_bool(keyed),
+             'jedi/inference/value/function.py:get_yield_lazy_values (false: yields_order is a list, a yield joins '
+             'the last group only `if for_stmt == last_for_stmt`, top-level yields `yields_order.append((None, '
+             '[yield_]))`; true: a dict, `yields_order.setdefault(<for_stmt or None>, []).append(yield_)`)')
